@@ -10,6 +10,7 @@ import (
 	"crypto/x509"
 	"crypto/x509/pkix"
 	"encoding/base64"
+	"encoding/binary"
 	"encoding/hex"
 	"fmt"
 	"io"
@@ -263,9 +264,20 @@ func runC07(r *core.Run) {
 			}
 		case 5: // certificate table
 			t, o := corruptN(r, certTable, is.Bytes, "cert-table")
+			if r.Chance(12, "fan-in-table?") {
+				// a structurally valid table whose n header entries all name the same data region:
+				// every range is inside the table, the total is n times the region
+				n := []int{64, 512, 4000}[r.Intn(3, "fan-in-entries")]
+				t, o = fanInCertTable(n), fmt.Sprintf("field:cert-table=fan-in-%d", n)
+			}
 			t = r.Blob(fmt.Sprintf("in%d", i), func() []byte { return t })
 			ops, inputLen = o, len(t)
 			name, call = "extractsev.FromCertTable", func() { extractsev.FromCertTable(t) }
+			if r.Bool("table-behind-report") {
+				q := append(append([]byte(nil), rawReport...), t...)
+				inputLen = len(q)
+				name, call = "extract.Attestation(report+table)", func() { extract.Attestation(q) }
+			}
 		case 6: // event log as a stream and as a file
 			l, o := corruptN(r, logBytes, spBytes, "event-log")
 			l = r.Blob(fmt.Sprintf("in%d", i), func() []byte { return l })
@@ -436,4 +448,19 @@ func fieldMutate(r *core.Run, a *Party, is *Issued) ([]byte, string) {
 	}
 	out, _ := proto.Marshal(&epb.VMLaunchEndorsement{SerializedUefiGolden: payload, Signature: sig})
 	return out, strings.Join(ops, ",")
+}
+
+// fanInCertTable builds a certificate table with n entries (distinct GUIDs) that all point at
+// one data region as large as the header.
+func fanInCertTable(n int) []byte {
+	hdr := (n + 1) * 24
+	region := n * 24
+	t := make([]byte, hdr+region)
+	for i := 0; i < n; i++ {
+		e := t[i*24:]
+		e[0], e[1], e[2] = byte(i+1), byte((i+1)>>8), 1
+		binary.LittleEndian.PutUint32(e[16:], uint32(hdr))
+		binary.LittleEndian.PutUint32(e[20:], uint32(region))
+	}
+	return t
 }
